@@ -10,7 +10,7 @@ from datetime import date
 from .common import Hist, make_cfg, run_tax, slots_of
 
 PROPS = ("C06",)
-BUDGET = {"quick": 900, "thorough": 3000}
+BUDGET = {"quick": 900, "thorough": 1500}
 
 
 def jobs(tier):
